@@ -76,6 +76,8 @@ def lift(x):
             return VOpaque(x)
         if z3.is_seq(x):
             return VSeq(x)
+        if s.kind() == z3.Z3_UNINTERPRETED_SORT:
+            return VU(x)
     raise Refuse(f"cannot lift {x!r}")
 
 
@@ -295,6 +297,28 @@ class VOpaque(V):
     def __repr__(self): return f"VOpaque({self.t})"
 
 
+class VU(V):
+    """A value of a declared uninterpreted sort (e.g. file keys, paths): only equality is known about it.
+    PYCLASS maps the sort name to the Python class the values stand for (isinstance tests)."""
+    PYCLASS = {}
+
+    def __init__(self, t):
+        self.t = t
+
+    def __eq__(s, o):
+        o = lift(o)
+        if isinstance(o, VU) and o.t.sort() == s.t.sort():
+            return VBool(s.t == o.t)
+        return VBool(False)
+
+    def __ne__(s, o): return ~(s == o)
+    __hash__ = object.__hash__
+
+    @property
+    def pyclass(self): return VU.PYCLASS.get(self.t.sort().name(), 'object')
+    def __repr__(self): return f"VU({self.t})"
+
+
 class VObj(V):
     """Reference to a heap object; fields are in State.heap[oid]."""
     def __init__(self, cls, oid=None, hint=None):
@@ -326,8 +350,9 @@ class VFunc(V):
 
 class VExc(V):
     """an exception instance: class name (or '<any>') and optional payload"""
-    def __init__(self, cls, args=None, site=None):
+    def __init__(self, cls, args=None, site=None, declared=False):
         self.cls, self.args, self.site = cls, args or [], site
+        self.declared = declared      # True: "some instance of cls or of a subclass" (from a callee's raises clause)
 
     def __repr__(self): return f"VExc({self.cls})"
 
@@ -367,6 +392,8 @@ def is_none(x):
         return VBool(True)
     if isinstance(x, VOpaque):
         return x.pred('isnone')
+    if hasattr(x, 'none') and isinstance(getattr(x, 'none'), VBool):
+        return x.none          # optional ghost collections (None or a collection)
     return VBool(False)
 
 
